@@ -125,8 +125,8 @@ Proof.
             destruct (dr_body g (s_cells st, s_refs st) (input_data st) c k [] (cl_body cl)) as [[w|e'|] dd];
               inversion Db; reflexivity. }
           subst d2. inversion Hs2 as [|? ? Hx _]; subst. simpl in Hx. tauto.
-        - destruct (dr_body g (s_cells st, s_refs st) (input_data st) c k [] (cl_body cl)) as [rr dd].
-          inversion Db; subst. inversion Hs2 as [|? ? Hx _]; subst. exact Hx. }
+        - destruct (dr_body g (s_cells st, s_refs st) (input_data st) c k [] (cl_body cl)) as [[w|e'|] dd];
+            inversion Db; subst; inversion Hs2 as [|? ? Hx _]; subst; exact Hx. }
       rewrite (ag_cell _ _ _ _ _ _ AG c Hpc), El, Eb.
       now rewrite (IHn _ _ _ Db (Forall_app_r _ _ _ Hs)).
     + (* ERefN *)
@@ -174,10 +174,12 @@ Proof.
       assert (Hbok : body_ok (cl_body cl) = true) by (eapply (ag_ok _ _ _ _ _ _ AG); eauto).
       rewrite (IHb _ _ _ _ _ _ Db Hbok Hsafe). exact H.
     + destruct (dr_body g (s_cells st, s_refs st) (input_data st) (fst i) (snd i) [] (cl_body cl)) as [rb dsb] eqn:Db.
-      inversion H; subst rb ds. inversion Hs as [|? ? Hx Hrest]; subst. simpl in Hx.
+      destruct rb as [vb|k|]; [|inversion H|inversion H].
+      assert (ds = RObj (fst i) :: dsb) by (inversion H; reflexivity). subst ds.
+      inversion Hs as [|? ? Hx Hrest]; subst. simpl in Hx.
       rewrite (ag_cell _ _ _ _ _ _ AG _ Hx), El, Ec.
       assert (Hbok : body_ok (cl_body cl) = true) by (eapply (ag_ok _ _ _ _ _ _ AG); eauto).
-      now rewrite (IHb _ _ _ _ _ _ Db Hbok Hrest).
+      rewrite (IHb _ _ _ _ _ _ Db Hbok Hrest). exact H.
   - (* body *)
     intros me args locs rest v ds H Hbok Hs. destruct rest as [|s more]; simpl in H |- *; [exact H|].
     simpl in Hbok. apply andb_true_iff in Hbok as (Hsok & Hmore).
